@@ -1,18 +1,59 @@
-"""Translator plugin: facts the manifest-builder model (Model/Builders.lean, Model/ManifestIO.lean) reads from the source.
+"""Translator plugin: what the manifest-builder model (Model/Builders.lean) reads from the source.
 
-* the literal arch lists in `Rpms.add`: `if arch in [...]` (source arches refused as compose arch) and
-  `nevra_dict["arch"] in (...)` (what counts as a source RPM);
-(the version gates the model needs come from tools/gen_gates.py).
+* the STATEMENTS of `Rpms.add`, `Modules.add`, `ExtraFiles.add` in source order, each classified against the kinds of
+  lean/ProductMD/Model/BuilderScript.lean (`if <test>: raise <Class>` refusals by their test and exception class,
+  messages ignored; the binding / normalising statements; the block of `setdefault` calls and the final store, which
+  must be the tail of the method verbatim).  Anything else is `unknown`.  The model interprets the list, so removing,
+  adding or reordering a refusal changes the model;
+* the literal arch lists in `Rpms.add`: `if arch in [...]` and `nevra_dict["arch"] in (...)`.
 
-A list that is not found in the recognised shape is emitted empty: the model then disagrees with the library and the
-`decide`d obligation `C12_source_arches` stops compiling (conservative)."""
-import ast, inspect, textwrap
+(The version gates the model needs come from tools/gen_gates.py.)  A list that is not found is emitted empty, an
+unrecognised statement as `unknown`: the `decide`d obligations in Proofs/Builders.lean / Properties/C12.lean then stop
+compiling (conservative)."""
+import ast, copy, inspect, textwrap
 import translate as T
+
+INSERT = {
+    "rpms": ["arches = self.rpms.setdefault(variant, {})", "srpms = arches.setdefault(arch, {})",
+             "rpms = srpms.setdefault(srpm_nevra, {})", "rpms[nevra] = {'sigkey': sigkey, 'path': path, 'category': category}"],
+    "modules": ["arches = self.modules.setdefault(variant, {})", "uids = arches.setdefault(arch, {})",
+                "metadata = uids.setdefault(uid, {})",
+                "metadata['metadata'] = {'uid': uid, 'name': name, 'stream': stream, 'version': version, 'context': context, 'koji_tag': koji_tag}",
+                "metadata.setdefault('modulemd_path', {})[category] = modulemd_path",
+                "metadata.setdefault('rpms', []).extend(list(rpms))"],
+    "extra": ["metadata = self.extra_files.setdefault(variant, {}).setdefault(arch, [])",
+              "metadata.append({'file': path, 'size': size, 'checksums': checksums})"],
+}
+# `if <test>: raise <Class>` by unparsed test and class
+REFUSALS = {
+    ("arch not in productmd.common.RPM_ARCHES", "ValueError"): "archTable",
+    ("arch not in RPM_ARCHES", "ValueError"): "archTable",
+    ("category not in SUPPORTED_CATEGORIES", "ValueError"): "category",
+    ("not path", "ValueError"): "emptyPath",
+    ("path.startswith('/')", "ValueError"): "absolutePath",
+    ("not variant", "ValueError"): "emptyVariant",
+    ("category == 'source' and srpm_nevra is not None", "ValueError"): "sourceWithSrpm",
+    ("category != 'source' and srpm_nevra is None", "ValueError"): "binaryWithoutSrpm",
+    ("modulemd_path.startswith('/')", "ValueError"): "absoluteMdPath",
+    ("not koji_tag", "ValueError"): "kojiTag",
+    ("not isinstance(rpms, (list, tuple))", "ValueError"): "rpmsType",
+    ("not isinstance(checksums, dict)", "TypeError"): "checksumsType",
+}
+EXACT = {
+    "nevra, nevra_dict = self._check_nevra(nevra)": "nevra",
+    "if sigkey is not None:\n    sigkey = sigkey.lower()": "sigkeyLower",
+    "if srpm_nevra:\n    srpm_nevra, _ = self._check_nevra(srpm_nevra)\nelse:\n    srpm_nevra = nevra": "srpmCanon",
+    "uid, uid_dict = self._check_uid(uid)": "uid",
+    "name = uid_dict['module_name']": "assign", "stream = uid_dict['stream']": "assign",
+    "version = uid_dict['version']": "assign", "context = uid_dict['context']": "assign",
+    "for param_name, param in {'variant': variant, 'koji_tag': koji_tag, 'modulemd_path': modulemd_path}.items():\n"
+    "    if not param:\n        raise ValueError": "paramsLoop",
+}
+
 
 def method_ast(cls, name):
     try:
-        src = textwrap.dedent(inspect.getsource(getattr(cls, name)))
-        return ast.parse(src).body[0]
+        return ast.parse(textwrap.dedent(inspect.getsource(getattr(cls, name)))).body[0]
     except Exception:
         return None
 
@@ -23,32 +64,97 @@ def str_list(node):
     return None
 
 
-def find_in_lists(fn):
-    """-> (list tested against the bare name `arch`, list tested against a subscript ...["arch"])"""
-    by_name, by_sub = None, None
-    for node in ast.walk(fn) if fn is not None else []:
-        if isinstance(node, ast.Compare) and len(node.ops) == 1 and isinstance(node.ops[0], ast.In):
-            lst = str_list(node.comparators[0])
-            if lst is None:
-                continue
-            l = node.left
-            if isinstance(l, ast.Name) and l.id == "arch" and by_name is None:
-                by_name = lst
-            if isinstance(l, ast.Subscript) and isinstance(l.slice, ast.Constant) and l.slice.value == "arch" and by_sub is None:
-                by_sub = lst
-    return by_name or [], by_sub or []
+def strip_raise_args(node):
+    """`raise C(<message>)` -> `raise C`: messages do not matter"""
+    class Tr(ast.NodeTransformer):
+        def visit_Raise(self, n):
+            if isinstance(n.exc, ast.Call) and isinstance(n.exc.func, ast.Name):
+                return ast.Raise(exc=ast.Name(id=n.exc.func.id, ctx=ast.Load()), cause=None)
+            return n
+    return ast.fix_missing_locations(Tr().visit(copy.deepcopy(node)))
+
+
+def raise_class(body):
+    if len(body) == 1 and isinstance(body[0], ast.Raise) and body[0].cause is None:
+        e = body[0].exc
+        if isinstance(e, ast.Call) and isinstance(e.func, ast.Name):
+            return e.func.id
+        if isinstance(e, ast.Name):
+            return e.id
+    return None
+
+
+def classify(st, lists):
+    if isinstance(st, ast.If) and not st.orelse:
+        cls = raise_class(st.body)
+        if cls is not None:
+            t = st.test
+            key = (ast.unparse(t), cls)
+            if key in REFUSALS:
+                return REFUSALS[key]
+            if cls == "ValueError" and isinstance(t, ast.Compare) and len(t.ops) == 1:
+                # if arch in [<literals>]
+                if isinstance(t.ops[0], ast.In) and isinstance(t.left, ast.Name) and t.left.id == "arch":
+                    lst = str_list(t.comparators[0])
+                    if lst is not None:
+                        lists.setdefault("src", []).append(lst)
+                        return "srcArch"
+                # if (category == 'source') != (nevra_dict['arch'] in (<literals>))
+                if isinstance(t.ops[0], ast.NotEq) and ast.unparse(t.left) == "category == 'source'":
+                    r = t.comparators[0]
+                    if isinstance(r, ast.Compare) and len(r.ops) == 1 and isinstance(r.ops[0], ast.In) \
+                            and ast.unparse(r.left) == "nevra_dict['arch']":
+                        lst = str_list(r.comparators[0])
+                        if lst is not None:
+                            lists.setdefault("nevra", []).append(lst)
+                            return "categoryArch"
+            return "unknown"
+    text = ast.unparse(strip_raise_args(st))
+    return EXACT.get(text, "unknown")
+
+
+def script_of(fn, which, lists):
+    """-> [(kind, first source line)]"""
+    if fn is None:
+        return [("unknown", "<method not found>")]
+    body = list(fn.body)
+    if body and isinstance(body[0], ast.Expr) and isinstance(body[0].value, ast.Constant) and isinstance(body[0].value.value, str):
+        body = body[1:]                                                    # docstring
+    out = []
+    i = 0
+    while i < len(body):
+        if [ast.unparse(s) for s in body[i:]] == INSERT[which]:
+            out.append(("insert", ast.unparse(body[i]) + "  … (%d statements)" % len(INSERT[which])))
+            break
+        out.append((classify(body[i], lists), ast.unparse(body[i]).splitlines()[0]))
+        i += 1
+    return out
 
 
 def generate(mods, repo):
-    rpms_add = method_ast(mods["rpms"].Rpms, "add")
-    compose_arches, nevra_arches = find_in_lists(rpms_add)
-    out = ["import ProductMD.Model.Str",
+    lists = {}
+    scripts = {
+        "rpms_add_script": script_of(method_ast(mods["rpms"].Rpms, "add"), "rpms", lists),
+        "modules_add_script": script_of(method_ast(mods["modules"].Modules, "add"), "modules", lists),
+        "extra_add_script": script_of(method_ast(mods["extra_files"].ExtraFiles, "add"), "extra", lists),
+    }
+    compose_arches = lists["src"][0] if len(lists.get("src", [])) == 1 else []
+    nevra_arches = lists["nevra"][0] if len(lists.get("nevra", [])) == 1 else []
+    out = ["import ProductMD.Model.Str", "import ProductMD.Model.BuilderScript",
            "/-! GENERATED by tools/gen_builders.py from the current source – do not edit. -/",
            "namespace PM.Gen", "open PM", "",
            "/-- rpms.py `Rpms.add`: `if arch in [...]` – source arches refused as compose arch -/",
            "def RPMS_ADD_SOURCE_ARCHES : List Str := [%s]" % ", ".join(T.lstr(x) for x in compose_arches), "",
            "/-- rpms.py `Rpms.add`: `nevra_dict[\"arch\"] in (...)` – the arches of a source RPM -/",
            "def RPMS_ADD_NEVRA_SOURCE_ARCHES : List Str := [%s]" % ", ".join(T.lstr(x) for x in nevra_arches), ""]
+    for name in ("rpms_add_script", "modules_add_script", "extra_add_script"):
+        sc = scripts[name]
+        out.append("/-- the statements of `%s`, in source order:\n" % {"rpms_add_script": "Rpms.add", "modules_add_script": "Modules.add",
+                                                                      "extra_add_script": "ExtraFiles.add"}[name])
+        out += ["    %-18s -- %s" % (k, s.replace("-/", "- /")) for k, s in sc]
+        out.append("-/")
+        out.append("def %s : List BStep :=\n  [%s]\n" % (name, ", ".join("." + k for k, _ in sc)))
     out.append("end PM.Gen")
-    js = {"rpms_add_source_arches": compose_arches, "rpms_add_nevra_source_arches": nevra_arches}
+    js = {"rpms_add_source_arches": compose_arches, "rpms_add_nevra_source_arches": nevra_arches,
+          "scripts": dict((k, [x[0] for x in v]) for k, v in scripts.items())}
     return [("BuilderFacts.lean", "\n".join(out) + "\n", js)]
